@@ -1052,7 +1052,7 @@ def verify_function(reg, key, timeout_s=10.0, budget=None, wall_budget_s=None, w
     out["canary_refuted"] = local["canary"]
     origins = set(run.assumption_origins)
     if run.remote:
-        for res in collect_children(run.remote, (deadline + 20) if deadline else None):
+        for res in collect_children(run.remote, (deadline + 9 * timeout_s + 30) if deadline else None):
             out["obligations"] += res["records"]
             out["canary_refuted"] += res["canary"]
             out["paths"] += res["paths"]
